@@ -45,6 +45,12 @@ Check(r) ==
           LET call == r.calls[i] IN
           CallOK(call, G, CO, ST, TW)
             \/ PrintT(<<"MISMATCH", l, r.id, PropOf(call.c), call.c, call.b, call.h>>)
+     \* real choice trees of the nogood search: every distinct answer over ALL paths must be the exact answer
+     /\ \A i \in DOMAIN r.trees :
+          LET t == r.trees[i] IN
+          (/\ t.st = "ok"
+           /\ \A j \in DOMAIN t.results : ExactlyOnce(t.results[j], IF t.c = "tree_twoval" THEN TW ELSE ST))
+            \/ PrintT(<<"MISMATCH", l, r.id, "C05", t.c, t.b, t.h>>)
      /\ PrintT(<<"INFO", l, r.id, nontriv, Cardinality(ST), Cardinality(TW)>>)
 
 Init == l = 1
